@@ -15,10 +15,12 @@ Open Scope Z_scope.
 (* 1. observations                                                      *)
 (* ================================================================== *)
 (* get_node_attr / get_edge_attr return None both for a missing key and for a stored None *)
-Definition attr_obs (st : state) (n k : Z) : option value :=
-  match attr st n k with Some VNone => None | x => x end.
-Definition eattr_obs (st : state) (u v k : Z) : option value :=
-  match lookup k (edge_attrs st u v) with Some VNone => None | x => x end.
+Definition obsv (o : option value) : option value :=
+  match o with Some VNone => None | Some v => Some v | None => None end.
+Definition attr_obs (st : state) (n k : Z) : option value := obsv (attr st n k).
+Definition eattr_obs (st : state) (u v k : Z) : option value := obsv (lookup k (edge_attrs st u v)).
+Lemma attr_obs_eq st n k : attr_obs st n k = match attr st n k with Some VNone => None | x => x end.
+Proof. unfold attr_obs, obsv. destruct (attr st n k) as [[]|]; reflexivity. Qed.
 
 Record obs_eq (s s' : state) : Prop := {
   oe_nodes : forall n, is_node s' n <-> is_node s n;
@@ -458,9 +460,9 @@ Lemma obs_saved reg d k (x : option value) :
   In k reg ->
   (forall v, lookup k d = Some v -> v <> VNone -> x = Some v) ->
   ((lookup k d = None \/ lookup k d = Some VNone) -> x = None) ->
-  match x with Some VNone => None | y => y end = match lookup k d with Some VNone => None | y => y end.
+  obsv x = obsv (lookup k d).
 Proof.
-  intros Hk H1 H2. destruct (lookup k d) as [v|] eqn:E.
+  intros Hk H1 H2. unfold obsv. destruct (lookup k d) as [v|] eqn:E.
   - destruct v; try (rewrite (H1 _ eq_refl) by discriminate; reflexivity). rewrite H2 by (now right). reflexivity.
   - rewrite H2 by (now left). reflexivity.
 Qed.
@@ -601,4 +603,1030 @@ Proof.
     + rewrite lookup_set_neq by exact Hne. apply (obs_saved _ _ _ _ Hk Hup Hno).
   - congruence.
   - congruence.
+Qed.
+
+(* the two-sided law: undo restores the observation, redo (= inverting the inverse) re-applies *)
+Definition inverts (st st1 : state) (b : basic) : Prop :=
+  exists b' st2, inv_basic st1 b = Ok b' st2 /\ obs_eq st2 st /\
+  exists b'' st3, inv_basic st2 b' = Ok b'' st3 /\ obs_eq st3 st1.
+
+Lemma add_edge_iou_fresh_at st u v a b st1 : do_add_edge st u v a = Ok b st1 -> iou_fresh_at st1 u v.
+Proof.
+  intros H. destruct (add_edge_char _ _ _ _ _ _ H) as (_ & _ & _ & En & Es & Ef & _ & X & Esu & HX).
+  destruct (succs_put st st1 u v X Esu) as [_ P2].
+  intros sg Hs Ha. rewrite P2, !Z.eqb_refl. cbn [andb]. rewrite Es in Hs. rewrite Ef in Ha. rewrite Hs, Ha in HX. subst X.
+  rewrite lookup_set_eq. f_equal. unfold iou_of, time_of, zattr, attr, node_attrs. now rewrite En.
+Qed.
+
+Theorem C01_add_edge_law st u v a b st1 :
+  W_dict st -> has_edge st u v = false -> do_add_edge st u v a = Ok b st1 -> inverts st st1 b.
+Proof.
+  intros WD Hne H. destruct (add_edge_inverse _ _ _ _ _ _ WD Hne H) as (b' & st2 & H2 & C2 & _).
+  exists b', st2. split; [exact H2|]. split; [apply obs_eq_sym, core_eq_obs, C2|].
+  destruct (add_edge_char _ _ _ _ _ _ H) as (-> & _). cbn [inv_basic] in H2.
+  destruct (del_edge_inverse st1 u v b' st2 (add_edge_W_dict _ _ _ _ _ _ H WD) (add_edge_iou_fresh_at _ _ _ _ _ _ H) H2)
+    as (b'' & st3 & H3 & O3 & _).
+  exists b'', st3. split; [exact H3|]. now apply obs_eq_sym.
+Qed.
+
+Theorem C01_del_edge_law st u v b st1 :
+  W_dict st -> iou_fresh_at st u v -> do_del_edge st u v = Ok b st1 -> inverts st st1 b.
+Proof.
+  intros WD Hio H. destruct (del_edge_inverse _ _ _ _ _ WD Hio H) as (b' & st2 & H2 & O2 & _).
+  exists b', st2. split; [exact H2|]. split; [now apply obs_eq_sym|].
+  destruct (del_edge_char _ _ _ _ _ H) as (-> & He & _ & _ & _ & _ & Esu). cbn [inv_basic] in H2.
+  assert (Hne : has_edge st1 u v = false).
+  { destruct (succs_drop st st1 u v Esu) as [D1 _]. rewrite D1, !Z.eqb_refl. reflexivity. }
+  destruct (add_edge_inverse st1 u v _ b' st2 (del_edge_W_dict _ _ _ _ _ H WD) Hne H2) as (b'' & st3 & H3 & C3 & _).
+  exists b'', st3. split; [exact H3|]. apply obs_eq_sym, core_eq_obs, C3.
+Qed.
+
+(* ================================================================== *)
+(* 5. UpdateNodeAttrs                                                    *)
+(* ================================================================== *)
+(* the attribute of node n at key k after writing the list a key by key: the last binding wins *)
+Fixpoint last_binding (k : Z) (a : attrs) (dflt : option value) : option value :=
+  match a with [] => dflt | (k', v) :: r => last_binding k r (if k =? k' then Some v else dflt) end.
+
+Lemma set_attrs_attr st n a : is_node st n -> forall k, attr (set_attrs st n a) n k = last_binding k a (attr st n k).
+Proof.
+  unfold set_attrs. revert st. induction a as [|[k1 v1] r IH]; intros st Hn k; cbn [fold_left fst snd last_binding]; [reflexivity|].
+  rewrite IH by (unfold is_node; now rewrite sna_node_ids). f_equal.
+  destruct (Z.eqb_spec k k1) as [->|Hne]; [now apply sna_attr_same|]. apply sna_attr_other. now right.
+Qed.
+
+Lemma last_binding_notin k a dflt : ~ In k (keys a) -> last_binding k a dflt = dflt.
+Proof.
+  revert dflt. induction a as [|[k1 v1] r IH]; intros dflt Hn; cbn [last_binding]; [reflexivity|].
+  rewrite IH by (intros Hi; apply Hn; now right). destruct (Z.eqb_spec k k1) as [->|]; [exfalso; apply Hn; now left|reflexivity].
+Qed.
+Lemma last_binding_const k a x dflt : (forall v, In (k, v) a -> v = x) -> In k (keys a) -> last_binding k a dflt = Some x.
+Proof.
+  revert dflt. induction a as [|[k1 v1] r IH]; intros dflt Hall Hin; [destruct Hin|]. cbn [last_binding].
+  destruct (in_dec Z.eq_dec k (keys r)) as [Hr|Hr].
+  - apply IH; [intros v Hv; apply Hall; now right|exact Hr].
+  - rewrite last_binding_notin by exact Hr. destruct Hin as [E|Hin]; [|contradiction]. cbn in E. subst k1.
+    rewrite Z.eqb_refl. f_equal. apply Hall. now left.
+Qed.
+
+Lemma upd_attrs_char st n new b st1 : do_upd_attrs st n new = Ok b st1 ->
+  (forall k, In k (keys new) -> ~ In k (protected_keys st)) /\
+  ((~ is_node st n /\ new = [] /\ st1 = st /\ b = BUpdAttrs n [] []) \/
+   (is_node st n /\ st1 = set_attrs st n new /\
+    b = BUpdAttrs n (map (fun kv => (fst kv, match attr st n (fst kv) with Some v => v | None => VNone end)) new) new)).
+Proof.
+  intros H. split; [apply (do_upd_attrs_inv _ _ _ _ _ H)|]. unfold do_upd_attrs in H.
+  destruct (existsb _ new); [discriminate|]. destruct (lookup n (nodes (g st))) as [d|] eqn:E.
+  - right. injection H as <- <-. split; [apply is_node_lookup; now exists d|]. split; [reflexivity|].
+    unfold attr, node_attrs, getd. rewrite E. reflexivity.
+  - left. destruct new; [|discriminate]. injection H as <- <-. split; [|auto].
+    intros Hn. apply is_node_lookup in Hn. destruct Hn as [d Hd]. congruence.
+Qed.
+
+Theorem upd_attrs_inverse st n new b st1 : do_upd_attrs st n new = Ok b st1 ->
+  exists b' st2, inv_basic st1 b = Ok b' st2 /\ obs_eq st st2 /\ bk st2 = bk st.
+Proof.
+  intros H. destruct (upd_attrs_char _ _ _ _ _ H) as [Hp [(Hn & -> & -> & ->)|(Hn & -> & ->)]].
+  - cbn [inv_basic]. rewrite H. eexists _, _. split; [reflexivity|]. split; [apply obs_eq_refl|reflexivity].
+  - cbn [inv_basic].
+    set (prev := map (fun kv => (fst kv, match attr st n (fst kv) with Some v => v | None => VNone end)) new).
+    assert (Hkeys : keys prev = keys new) by (unfold prev, keys; rewrite map_map; reflexivity).
+    destruct (set_attrs_upd_at st n new) as [A F].
+    set (st1 := set_attrs st n new) in *.
+    assert (Hn1 : is_node st1 n) by (now apply (attr_upd_is_node _ _ n A)).
+    unfold do_upd_attrs.
+    assert (Ex : existsb (fun kv => memz (fst kv) (protected_keys st1)) prev = false).
+    { destruct (existsb _ prev) eqn:Ex; [|reflexivity]. exfalso. apply existsb_exists in Ex. destruct Ex as (kv & Hin & Hm).
+      apply memz_In in Hm. unfold protected_keys in Hm. rewrite (au_ft _ _ A) in Hm. apply (Hp (fst kv)); [|exact Hm].
+      rewrite <- Hkeys. unfold keys. now apply in_map. }
+    rewrite Ex. apply is_node_lookup in Hn1. destruct Hn1 as [d1 Hd1]. rewrite Hd1.
+    eexists _, _. split; [reflexivity|]. fold (set_attrs st1 n prev).
+    destruct (set_attrs_upd_at st1 n prev) as [A2 F2]. split; [|now rewrite (au_bk _ _ A2), (au_bk _ _ A)].
+    assert (Hn1 : is_node st1 n) by (apply is_node_lookup; now exists d1).
+    constructor.
+    + intros m. rewrite (attr_upd_is_node _ _ m A2). apply (attr_upd_is_node _ _ m A).
+    + intros u v. unfold has_edge, adj. now rewrite (au_succs _ _ A2), (au_succs _ _ A).
+    + intros m k _. unfold attr_obs.
+      destruct (Z.eq_dec m n) as [->|Hm]; [|rewrite F2, F by (now left); reflexivity].
+      destruct (in_dec Z.eq_dec k (keys new)) as [Hk|Hk]; [|rewrite F2, F by (right; congruence); reflexivity].
+      rewrite (set_attrs_attr st1 n prev Hn1 k).
+      rewrite (last_binding_const k prev (match attr st n k with Some v => v | None => VNone end)).
+      * unfold obsv. destruct (attr st n k) as [[]|]; reflexivity.
+      * intros v Hv. unfold prev in Hv. apply in_map_iff in Hv. destruct Hv as (kv & E & _). now injection E as <- <-.
+      * now rewrite Hkeys.
+    + intros u v k _. unfold eattr_obs, edge_attrs, adj. now rewrite (au_succs _ _ A2), (au_succs _ _ A).
+    + now rewrite (au_seg _ _ A2), (au_seg _ _ A).
+    + now rewrite (au_ft _ _ A2), (au_ft _ _ A).
+Qed.
+
+Theorem C01_upd_attrs_law st n new b st1 : do_upd_attrs st n new = Ok b st1 -> inverts st st1 b.
+Proof.
+  intros H. destruct (upd_attrs_inverse _ _ _ _ _ H) as (b' & st2 & H2 & O2 & _).
+  exists b', st2. split; [exact H2|]. split; [now apply obs_eq_sym|].
+  assert (Hb : exists prev, b = BUpdAttrs n prev new).
+  { destruct (upd_attrs_char _ _ _ _ _ H) as [_ [(_ & -> & _ & ->)|(_ & _ & ->)]]; eexists; reflexivity. }
+  destruct Hb as [prev ->]. cbn [inv_basic] in H2.
+  destruct (upd_attrs_inverse _ _ _ _ _ H2) as (b'' & st3 & H3 & O3 & _).
+  exists b'', st3. split; [exact H3|]. now apply obs_eq_sym.
+Qed.
+
+(* ================================================================== *)
+(* 6. UpdateNodeSeg                                                      *)
+(* ================================================================== *)
+(* painting v and then w over the same pixels gives the array back when those pixels held w *)
+Lemma write_back : forall f i idx v w,
+  (forall j, (j < length f)%nat -> memz (i + Z.of_nat j) idx = true -> nth j f 0 = w) ->
+  write_frame i (write_frame i f idx v) idx w = f.
+Proof.
+  induction f as [|x r IH]; intros i idx v w Hp; cbn [write_frame]; [reflexivity|]. f_equal.
+  - destruct (memz i idx) eqn:E; [|reflexivity]. symmetry. apply (Hp 0%nat); [cbn; lia|]. now rewrite Z.add_0_r.
+  - apply IH. intros j Hj Hm. apply (Hp (S j)); [cbn; lia|]. now replace (i + Z.of_nat (S j)) with (i + 1 + Z.of_nat j) by lia.
+Qed.
+
+Lemma upd_frame_back : forall sg k (h h' : list Z -> list Z),
+  ((k < length sg)%nat -> h' (h (nth k sg [])) = nth k sg []) -> upd_frame k h' (upd_frame k h sg) = sg.
+Proof.
+  induction sg as [|f r IH]; intros k h h' Hh; [destruct k; reflexivity|].
+  destruct k as [|j]; cbn [upd_frame].
+  - f_equal. apply Hh. cbn. lia.
+  - f_equal. apply IH. intros Hj. apply Hh. cbn. lia.
+Qed.
+
+Lemma upd_frame_len k h sg : length (upd_frame k h sg) = length sg.
+Proof. revert k. induction sg as [|f r IH]; intros [|j]; cbn; auto. Qed.
+
+Definition paint_sg (sg : list (list Z)) (px : pixels) (v : Z) : list (list Z) :=
+  upd_frame (Z.to_nat (fst px)) (fun f => write_frame 0 f (snd px) v) sg.
+
+Lemma paint_back sg px v w : frame_ok sg (fst px) = true ->
+  (forall i, (i < length (frame_of sg (fst px)))%nat -> In (Z.of_nat i) (snd px) -> label_at sg (fst px) i = w) ->
+  paint_sg (paint_sg sg px v) px w = sg.
+Proof.
+  intros Hf Hp. unfold paint_sg. apply upd_frame_back. intros _. apply write_back.
+  intros j Hj Hm. apply memz_In in Hm. apply Hp; assumption.
+Qed.
+Lemma paint_frame_ok sg px v t : frame_ok (paint_sg sg px v) t = frame_ok sg t.
+Proof. unfold frame_ok, paint_sg. now rewrite upd_frame_len. Qed.
+
+Lemma set_pixels_char st px v u st0 : set_pixels st px v = Ok u st0 ->
+  exists sg, seg st = Some sg /\ frame_ok sg (fst px) = true /\ st0 = upd_seg st (Some (paint_sg sg px v)).
+Proof.
+  unfold set_pixels. destruct (seg st) as [sg|]; [|discriminate]. destruct (frame_ok sg (fst px)) eqn:E; [|discriminate].
+  intros H. injection H as <-. exists sg. auto.
+Qed.
+Lemma set_pixels_run st sg px v : seg st = Some sg -> frame_ok sg (fst px) = true ->
+  set_pixels st px v = Ok tt (upd_seg st (Some (paint_sg sg px v))).
+Proof. intros Hs Hf. unfold set_pixels. now rewrite Hs, Hf. Qed.
+
+(* the value RegionpropsAnnotator.update writes for a mask *)
+Definition rpval (m : list Z) : value := match m with [] => VNone | _ => VRp m end.
+
+Lemma set_keys_attr n v : forall ks st, is_node st n -> forall k,
+  attr (fold_left (fun s k => set_node_attr s n k v) ks st) n k = if memz k ks then Some v else attr st n k.
+Proof.
+  induction ks as [|k1 r IH]; intros st Hn k; cbn [fold_left]; [reflexivity|].
+  rewrite IH by (unfold is_node; now rewrite sna_node_ids). unfold memz. cbn [existsb].
+  destruct (existsb (Z.eqb k) r); [now rewrite orb_true_r|]. rewrite orb_false_r.
+  destruct (Z.eqb_spec k k1) as [->|Hne]; [now apply sna_attr_same|]. apply sna_attr_other. now right.
+Qed.
+
+Lemma rp_update_spec st n sg : seg st = Some sg -> is_node st n ->
+  forall k, In k (rp_act (ft st)) -> attr (rp_update st n) n k = Some (rpval (mask_of sg (time_of st n) n)).
+Proof.
+  intros Hs Hn k Hk. unfold rp_update. rewrite Hs. rewrite set_keys_attr by exact Hn.
+  apply memz_In in Hk. rewrite Hk. unfold rpval. destruct (mask_of sg (time_of st n) n); reflexivity.
+Qed.
+
+Lemma time_of_same s s' n : attr s' n KTime = attr s n KTime -> time_of s' n = time_of s n.
+Proof. intros H. unfold time_of, zattr. now rewrite H. Qed.
+Lemma iou_of_times s s' sg u v : time_of s' u = time_of s u -> time_of s' v = time_of s v -> iou_of s' sg u v = iou_of s sg u v.
+Proof. intros E1 E2. unfold iou_of. now rewrite E1, E2. Qed.
+Lemma iou_of_same_nodes s s' sg u v : nodes (g s') = nodes (g s) -> iou_of s' sg u v = iou_of s sg u v.
+Proof. intros E. unfold iou_of, time_of, zattr, attr, node_attrs. now rewrite E. Qed.
+
+Definition pmem (a b : Z) (es : list (Z * Z)) : bool := existsb (fun e => (fst e =? a) && (snd e =? b)) es.
+
+Lemma sea_spec st u v k x : has_edge st u v = true ->
+  let st' := set_edge_attr st u v k x in
+  nodes (g st') = nodes (g st) /\ (forall a b, has_edge st' a b = has_edge st a b) /\
+  (forall a b, edge_attrs st' a b = if (a =? u) && (b =? v) then set k x (edge_attrs st u v) else edge_attrs st a b).
+Proof.
+  intros He. cbv zeta.
+  assert (Hs : succs (g (set_edge_attr st u v k x)) = set u (set v (set k x (edge_attrs st u v)) (adj st u)) (succs (g st)))
+    by (unfold set_edge_attr; now rewrite He).
+  destruct (succs_put _ _ _ _ _ Hs) as [H1 H2]. split; [unfold set_edge_attr; now rewrite He|]. split; [|exact H2].
+  intros a b. rewrite H1. destruct (Z.eqb_spec a u) as [->|]; [|reflexivity]. destruct (Z.eqb_spec b v) as [->|]; [|reflexivity].
+  now rewrite He.
+Qed.
+
+Lemma iou_fold_spec sg : forall es s,
+  let s' := fold_left (fun s e => set_edge_attr s (fst e) (snd e) KIou (iou_of s sg (fst e) (snd e))) es s in
+  nodes (g s') = nodes (g s) /\ (forall a b, has_edge s' a b = has_edge s a b) /\
+  (forall a b k, lookup k (edge_attrs s' a b) =
+     if (k =? KIou) && pmem a b es && has_edge s a b then Some (iou_of s sg a b) else lookup k (edge_attrs s a b)).
+Proof.
+  induction es as [|[eu ev] r IH]; intros s; cbn [fold_left fst snd].
+  - split; [reflexivity|]. split; [reflexivity|]. intros a b k. unfold pmem. cbn. now rewrite andb_false_r.
+  - set (s1 := set_edge_attr s eu ev KIou (iou_of s sg eu ev)).
+    destruct (IH s1) as (I0 & I1 & I2). cbv zeta in *.
+    destruct (has_edge s eu ev) eqn:He.
+    + destruct (sea_spec s eu ev KIou (iou_of s sg eu ev) He) as (S0 & S1 & S2). fold s1 in S0, S1, S2.
+      split; [congruence|]. split; [intros a b; now rewrite I1, S1|].
+      intros a b k. rewrite I2, S1, S2, (iou_of_same_nodes s s1 sg a b S0). unfold pmem. cbn [existsb fst snd].
+      destruct (has_edge s a b) eqn:Hab.
+      2:{ rewrite !andb_false_r. destruct ((a =? eu) && (b =? ev)) eqn:E; [|reflexivity].
+          apply andb_true_iff in E. destruct E as [E1 E2]. apply Z.eqb_eq in E1, E2. subst. congruence. }
+      rewrite !andb_true_r. destruct (Z.eqb_spec k KIou) as [->|Hk]; cbn [andb].
+      * fold (pmem a b r). destruct (pmem a b r); [now rewrite orb_true_r|]. rewrite orb_false_r.
+        rewrite (Z.eqb_sym eu a), (Z.eqb_sym ev b).
+        destruct (Z.eqb_spec a eu) as [->|]; [|reflexivity]. destruct (Z.eqb_spec b ev) as [->|]; [|reflexivity].
+        cbn [andb]. apply lookup_set_eq.
+      * destruct ((a =? eu) && (b =? ev)) eqn:E; [|reflexivity].
+        apply andb_true_iff in E. destruct E as [E1 E2]. apply Z.eqb_eq in E1, E2. subst. now apply lookup_set_neq.
+    + assert (E1 : s1 = s) by (unfold s1, set_edge_attr; now rewrite He). clearbody s1. subst s1.
+      split; [exact I0|]. split; [exact I1|]. intros a b k. rewrite I2. unfold pmem. cbn [existsb fst snd]. fold (pmem a b r).
+      destruct ((eu =? a) && (ev =? b)) eqn:E; [|reflexivity].
+      apply andb_true_iff in E. destruct E as [E2 E3]. apply Z.eqb_eq in E2, E3. subst. rewrite He. now rewrite !andb_false_r.
+Qed.
+
+Lemma iou_update_spec st es :
+  let st' := iou_update_edges st es in
+  nodes (g st') = nodes (g st) /\ seg st' = seg st /\ ft st' = ft st /\ bk st' = bk st /\
+  (forall a b, has_edge st' a b = has_edge st a b) /\
+  (forall a b k, lookup k (edge_attrs st' a b) =
+     match seg st with
+     | Some sg => if iou_act (ft st) && (k =? KIou) && pmem a b es && has_edge st a b then Some (iou_of st sg a b)
+                  else lookup k (edge_attrs st a b)
+     | None => lookup k (edge_attrs st a b)
+     end).
+Proof.
+  cbv zeta. pose proof (iou_update_edges_upd st es) as U.
+  split; [apply U|]. split; [apply U|]. split; [apply U|]. split; [apply U|]. clear U.
+  unfold iou_update_edges. destruct (seg st) as [sg|]; [|split; reflexivity].
+  destruct (iou_act (ft st)); [|split; reflexivity]. cbn [andb].
+  destruct (iou_fold_spec sg es st) as (_ & A & B). split; assumption.
+Qed.
+
+Definition incident_edges (s : state) (n : Z) : list (Z * Z) :=
+  map (fun p => (p, n)) (predecessors s n) ++ map (fun c => (n, c)) (successors s n).
+
+Lemma pmem_incident s n a b : W_dict s -> has_edge s a b = true -> pmem a b (incident_edges s n) = (a =? n) || (b =? n).
+Proof.
+  intros WD He. unfold pmem, incident_edges. rewrite existsb_app.
+  destruct (wd_edge_nodes s WD a b He) as [Na Nb].
+  destruct (Z.eqb_spec b n) as [->|Hb].
+  - rewrite orb_true_r. replace (existsb _ (map (fun p => (p, n)) (predecessors s n))) with true; [reflexivity|].
+    symmetry. apply existsb_exists. exists (a, n). split; [|cbn; now rewrite !Z.eqb_refl].
+    apply in_map_iff. exists a. split; [reflexivity|]. unfold predecessors. apply filter_In. split; [exact Na|exact He].
+  - replace (existsb _ (map (fun p => (p, n)) (predecessors s n))) with false.
+    2:{ symmetry. destruct (existsb _ (map _ (predecessors s n))) eqn:E; [|reflexivity]. exfalso.
+        apply existsb_exists in E. destruct E as (e & Hin & Hm). apply in_map_iff in Hin. destruct Hin as (p & <- & _).
+        cbn in Hm. apply andb_true_iff in Hm. destruct Hm as [_ Hm]. apply Z.eqb_eq in Hm. congruence. }
+    cbn [orb]. rewrite orb_false_r. destruct (Z.eqb_spec a n) as [->|Ha].
+    + apply existsb_exists. exists (n, b). split; [|cbn; now rewrite !Z.eqb_refl].
+      apply in_map_iff. exists b. split; [reflexivity|]. unfold successors. apply haskey_keys. exact He.
+    + destruct (existsb _ (map _ (successors s n))) eqn:E; [|reflexivity]. exfalso.
+      apply existsb_exists in E. destruct E as (e & Hin & Hm). apply in_map_iff in Hin. destruct Hin as (c & <- & _).
+      cbn in Hm. apply andb_true_iff in Hm. destruct Hm as [Hm _]. apply Z.eqb_eq in Hm. congruence.
+Qed.
+
+Lemma upd_seg_char st n px added b st1 : do_upd_seg st n px added = Ok b st1 -> is_node st n ->
+  exists sg, seg st = Some sg /\ frame_ok sg (fst px) = true /\ b = BUpdSeg n px added /\
+    st1 = iou_update_edges (rp_update (upd_seg st (Some (paint_sg sg px (if added then n else 0)))) n)
+            (incident_edges (rp_update (upd_seg st (Some (paint_sg sg px (if added then n else 0)))) n) n).
+Proof.
+  intros H Hn. unfold do_upd_seg in H.
+  destruct (set_pixels st px (if added then n else 0)) as [u st0|e st0] eqn:Ep; [|discriminate]. cbn [bind] in H.
+  destruct (set_pixels_char _ _ _ _ _ Ep) as (sg & Hs & Hf & ->).
+  assert (Hh : has_node (upd_seg st (Some (paint_sg sg px (if added then n else 0)))) n = true) by (now apply has_node_is_node).
+  rewrite Hh in H. cbn [negb andb] in H. injection H as <- <-. exists sg. auto.
+Qed.
+
+(* what a stored managed value must be for the inverse to reproduce it: the value of the current masks *)
+Definition seg_fresh_at (st : state) (n : Z) : Prop :=
+  forall sg, seg st = Some sg ->
+    (forall k, In k (rp_act (ft st)) -> attr st n k = Some (rpval (mask_of sg (time_of st n) n))) /\
+    (iou_act (ft st) = true -> forall a b, has_edge st a b = true -> a = n \/ b = n ->
+       lookup KIou (edge_attrs st a b) = Some (iou_of st sg a b)).
+
+Lemma W_fresh_seg_fresh_at st n : W_fresh st -> W_seg st -> is_node st n -> seg_fresh_at st n.
+Proof.
+  intros WF WS Hn sg Hs. unfold W_fresh in WF. unfold W_seg in WS. rewrite Hs in WF, WS. destruct WF as [F1 F2]. destruct WS as (S1 & _).
+  split.
+  - intros k Hk. rewrite (F1 n k Hn Hk). destruct (S1 n Hn) as [_ Hne]. unfold rpval. destruct (mask_of sg (time_of st n) n); [congruence|reflexivity].
+  - intros Ha a b He _. now apply F2.
+Qed.
+
+(* the effect of UpdateNodeSeg, pointwise *)
+Lemma upd_seg_effect st n px added b st1 sg :
+  W_dict st -> rp_disjoint st -> is_node st n -> seg st = Some sg -> do_upd_seg st n px added = Ok b st1 ->
+  let sg' := paint_sg sg px (if added then n else 0) in
+  frame_ok sg (fst px) = true /\ b = BUpdSeg n px added /\
+  seg st1 = Some sg' /\ ft st1 = ft st /\ bk st1 = bk st /\ node_ids st1 = node_ids st /\
+  (forall m, time_of st1 m = time_of st m) /\
+  (forall a c, has_edge st1 a c = has_edge st a c) /\
+  (forall m k, attr st1 m k = if (m =? n) && memz k (rp_act (ft st)) then Some (rpval (mask_of sg' (time_of st n) n)) else attr st m k) /\
+  (forall a c k, lookup k (edge_attrs st1 a c) =
+     if iou_act (ft st) && (k =? KIou) && ((a =? n) || (c =? n)) && has_edge st a c then Some (iou_of st sg' a c)
+     else lookup k (edge_attrs st a c)) /\
+  W_dict st1.
+Proof.
+  intros WD Hrp Hn Hs H. pose proof (upd_seg_W_dict _ _ _ _ _ _ H Hrp WD) as WD1.
+  destruct (upd_seg_char _ _ _ _ _ _ H Hn) as (sg0 & Hs0 & Hf & Hb & E1). rewrite Hs in Hs0. injection Hs0 as <-. cbv zeta.
+  set (sg' := paint_sg sg px (if added then n else 0)) in *.
+  set (s0 := upd_seg st (Some sg')) in *. set (s1 := rp_update s0 n) in *.
+  assert (Hn0 : is_node s0 n) by exact Hn.
+  destruct (rp_update_upd_at s0 n) as [A F]. fold s1 in A, F. change (ft s0) with (ft st) in F.
+  destruct (iou_update_spec s1 (incident_edges s1 n)) as (I0 & I1 & I2 & I3 & I4 & I5). rewrite <- E1 in I0, I1, I2, I3, I4, I5.
+  assert (Hattr1 : forall m k, attr s1 m k = if (m =? n) && memz k (rp_act (ft st)) then Some (rpval (mask_of sg' (time_of st n) n)) else attr st m k).
+  { intros m k. destruct (Z.eqb_spec m n) as [->|Hm]; cbn [andb].
+    - destruct (memz k (rp_act (ft st))) eqn:Ek.
+      + apply memz_In in Ek. apply (rp_update_spec s0 n sg' eq_refl Hn0 k Ek).
+      + apply memz_false in Ek. apply F. now right.
+    - apply F. now left. }
+  assert (Hattr : forall m k, attr st1 m k = attr s1 m k) by (intros m k; unfold attr, node_attrs; now rewrite I0).
+  assert (Htime1 : forall m, time_of s1 m = time_of st m).
+  { intros m. apply time_of_same. rewrite Hattr1. destruct (memz KTime (rp_act (ft st))) eqn:Ek; [|now rewrite andb_false_r].
+    apply memz_In in Ek. exfalso. apply (Hrp KTime); [unfold id_key; auto|exact Ek]. }
+  assert (Hedge1 : forall a c, has_edge s1 a c = has_edge st a c) by (intros a c; unfold has_edge, adj; now rewrite (au_succs _ _ A)).
+  assert (Heat1 : forall a c, edge_attrs s1 a c = edge_attrs st a c) by (intros a c; unfold edge_attrs, adj; now rewrite (au_succs _ _ A)).
+  assert (WD1' : W_dict s1).
+  { eapply W_dict_attr_upd; [exact A| |apply (W_dict_same_g st s0 eq_refl WD)]. intros m k Hk. apply F. right. now apply Hrp. }
+  split; [exact Hf|]. split; [exact Hb|]. split; [now rewrite I1, (au_seg _ _ A)|]. split; [now rewrite I2, (au_ft _ _ A)|].
+  split; [now rewrite I3, (au_bk _ _ A)|]. split; [unfold node_ids; rewrite I0; apply (au_ids _ _ A)|].
+  split; [intros m; rewrite <- Htime1; apply time_of_same, Hattr|]. split; [intros a c; now rewrite I4|].
+  split; [intros m k; now rewrite Hattr|]. split; [|exact WD1].
+  intros a c k. rewrite I5, (au_seg _ _ A). change (seg s0) with (Some sg'). rewrite (au_ft _ _ A). change (ft s0) with (ft st).
+  rewrite Hedge1, Heat1. destruct (has_edge st a c) eqn:He; [|now rewrite !andb_false_r].
+  rewrite (pmem_incident s1 n a c WD1') by (now rewrite Hedge1).
+  rewrite (iou_of_times st s1 sg' a c (Htime1 a) (Htime1 c)). reflexivity.
+Qed.
+
+Lemma upd_seg_fresh_after st n px added b st1 :
+  W_dict st -> rp_disjoint st -> is_node st n -> do_upd_seg st n px added = Ok b st1 -> seg_fresh_at st1 n.
+Proof.
+  intros WD Hrp Hn H. destruct (upd_seg_char _ _ _ _ _ _ H Hn) as (sg & Hs & _).
+  destruct (upd_seg_effect st n px added b st1 sg WD Hrp Hn Hs H) as (_ & _ & E1 & E2 & _ & _ & E4 & E5 & E6 & E7 & _).
+  intros sg1 Hs1. rewrite E1 in Hs1. injection Hs1 as <-. rewrite E2. split.
+  - intros k Hk. rewrite E6, Z.eqb_refl, E4. apply memz_In in Hk. now rewrite Hk.
+  - intros Ha a c He Hac. rewrite E7, Ha, Z.eqb_refl. rewrite E5 in He. rewrite He.
+    assert (Hor : (a =? n) || (c =? n) = true) by (destruct Hac as [->| ->]; rewrite Z.eqb_refl; [reflexivity|apply orb_true_r]).
+    rewrite Hor. cbn [andb]. f_equal. symmetry. apply iou_of_times; apply E4.
+Qed.
+
+(* UpdateNodeSeg, then its inverse: the array is restored bit for bit, the recomputed managed
+   values are the ones that were stored *)
+Theorem upd_seg_inverse st n px (added : bool) b st1 :
+  W_dict st -> rp_disjoint st -> is_node st n -> seg_fresh_at st n ->
+  (forall sg i, seg st = Some sg -> (i < length (frame_of sg (fst px)))%nat -> In (Z.of_nat i) (snd px) ->
+     label_at sg (fst px) i = if added then 0 else n) ->
+  do_upd_seg st n px added = Ok b st1 ->
+  exists b' st2, inv_basic st1 b = Ok b' st2 /\ obs_eq st st2 /\ bk st2 = bk st.
+Proof.
+  intros WD Hrp Hn Hfr Hpix H. destruct (upd_seg_char _ _ _ _ _ _ H Hn) as (sg & Hs & _).
+  destruct (upd_seg_effect st n px added b st1 sg WD Hrp Hn Hs H) as (Hf & -> & E1 & E2 & E3 & E4 & E5 & E6 & E7 & E8 & WD1).
+  cbv zeta in *. set (sg' := paint_sg sg px (if added then n else 0)) in *.
+  assert (Hn1 : is_node st1 n) by (unfold is_node; now rewrite E4).
+  assert (Hrp1 : rp_disjoint st1) by (unfold rp_disjoint; now rewrite E2).
+  assert (Hf1 : frame_ok sg' (fst px) = true) by (unfold sg'; now rewrite paint_frame_ok).
+  cbn [inv_basic].
+  destruct (do_upd_seg st1 n px (negb added)) as [b' st2|e st2] eqn:H2.
+  2:{ exfalso. unfold do_upd_seg in H2. rewrite (set_pixels_run st1 sg' px _ E1 Hf1) in H2. cbn [bind] in H2.
+      assert (Hh : has_node (upd_seg st1 (Some (paint_sg sg' px (if negb added then n else 0)))) n = true) by (now apply has_node_is_node).
+      rewrite Hh in H2. discriminate. }
+  exists b', st2. split; [reflexivity|].
+  destruct (upd_seg_effect st1 n px (negb added) b' st2 sg' WD1 Hrp1 Hn1 E1 H2) as (_ & _ & G1 & G2 & G3 & G4 & G5 & G6 & G7 & G8 & _).
+  cbv zeta in *.
+  assert (Eback : paint_sg sg' px (if negb added then n else 0) = sg).
+  { unfold sg'. apply paint_back; [exact Hf|]. intros i Hi Hin. rewrite (Hpix sg i Hs Hi Hin). now destruct added. }
+  rewrite Eback in *. destruct (Hfr sg Hs) as [Fr1 Fr2].
+  split; [|congruence]. constructor.
+  - intros m. unfold is_node. now rewrite G4, E4.
+  - intros a c. now rewrite G6, E6.
+  - intros m k _. unfold attr_obs. f_equal. rewrite G7, E2, E5, E7.
+    destruct ((m =? n) && memz k (rp_act (ft st))) eqn:Ec; [|reflexivity].
+    apply andb_true_iff in Ec. destruct Ec as [Em Ek]. apply Z.eqb_eq in Em. subst m. apply memz_In in Ek. symmetry. now apply Fr1.
+  - intros a c k _. unfold eattr_obs. f_equal. rewrite G8, E2, E6, E8.
+    destruct (iou_act (ft st) && (k =? KIou) && ((a =? n) || (c =? n)) && has_edge st a c) eqn:Ec; [|reflexivity].
+    apply andb_true_iff in Ec. destruct Ec as [Ec He]. apply andb_true_iff in Ec. destruct Ec as [Ec Hac].
+    apply andb_true_iff in Ec. destruct Ec as [Ha Hk]. apply Z.eqb_eq in Hk. subst k.
+    rewrite (iou_of_times st st1 sg a c (E5 a) (E5 c)). symmetry. apply Fr2; [exact Ha|exact He|].
+    apply orb_true_iff in Hac. destruct Hac as [Hx|Hx]; apply Z.eqb_eq in Hx; auto.
+  - congruence.
+  - congruence.
+Qed.
+
+Theorem C01_upd_seg_law st n px (added : bool) b st1 :
+  W_dict st -> rp_disjoint st -> is_node st n -> seg_fresh_at st n ->
+  (forall sg i, seg st = Some sg -> (i < length (frame_of sg (fst px)))%nat -> In (Z.of_nat i) (snd px) ->
+     label_at sg (fst px) i = if added then 0 else n) ->
+  do_upd_seg st n px added = Ok b st1 -> inverts st st1 b.
+Proof.
+  intros WD Hrp Hn Hfr Hpix H. destruct (upd_seg_inverse _ _ _ _ _ _ WD Hrp Hn Hfr Hpix H) as (b' & st2 & H2 & O2 & _).
+  exists b', st2. split; [exact H2|]. split; [now apply obs_eq_sym|].
+  destruct (upd_seg_char _ _ _ _ _ _ H Hn) as (sg & Hs & _).
+  destruct (upd_seg_effect st n px added b st1 sg WD Hrp Hn Hs H) as (Hf & -> & E1 & E2 & E3 & E4 & E5 & E6 & E7 & E8 & WD1).
+  cbn [inv_basic] in H2.
+  assert (Hn1 : is_node st1 n) by (unfold is_node; now rewrite E4).
+  assert (Hrp1 : rp_disjoint st1) by (unfold rp_disjoint; now rewrite E2).
+  assert (Hpix1 : forall sg1 i, seg st1 = Some sg1 -> (i < length (frame_of sg1 (fst px)))%nat -> In (Z.of_nat i) (snd px) ->
+     label_at sg1 (fst px) i = if negb added then 0 else n).
+  { intros sg1 i Hs1 Hi Hin. rewrite E1 in Hs1. injection Hs1 as <-. revert Hi. unfold label_at, frame_of, paint_sg.
+    assert (Hlt : (Z.to_nat (fst px) < length sg)%nat).
+    { unfold frame_ok in Hf. apply andb_true_iff in Hf. destruct Hf as [A B]. apply Z.leb_le in A. apply Z.ltb_lt in B. lia. }
+    assert (Hnth : forall k h sg0, (k < length sg0)%nat -> nth k (upd_frame k h sg0) [] = h (nth k sg0 [])).
+    { clear. induction k as [|k IH]; intros h [|f r] Hk; cbn in *; try lia; [reflexivity|]. apply IH. lia. }
+    rewrite Hnth by exact Hlt. set (f := nth (Z.to_nat (fst px)) sg []).
+    assert (Hw : forall f0 s j, (j < length f0)%nat -> length (write_frame s f0 (snd px) (if added then n else 0)) = length f0 /\
+              nth j (write_frame s f0 (snd px) (if added then n else 0)) 0 = if memz (s + Z.of_nat j) (snd px) then (if added then n else 0) else nth j f0 0).
+    { clear. induction f0 as [|x r IH]; intros s j Hj; cbn in Hj; [lia|]. cbn [write_frame length]. destruct j as [|j].
+      - split; [|cbn; now rewrite Z.add_0_r]. f_equal.
+        destruct r; [reflexivity|]. apply (IH (s + 1) 0%nat). cbn. lia.
+      - assert (Hj' : (j < length r)%nat) by lia. destruct (IH (s + 1) j Hj') as [L N]. split; [now rewrite L|].
+        cbn [nth]. rewrite N. now replace (s + 1 + Z.of_nat j) with (s + Z.of_nat (S j)) by lia. }
+    intros Hi. destruct (length f) eqn:El.
+    { destruct f; [cbn in Hi; lia|discriminate]. }
+    assert (Hi' : (i < length f)%nat).
+    { destruct (Hw f 0 0%nat ltac:(lia)) as [L _]. now rewrite L in Hi. }
+    destruct (Hw f 0 i Hi') as [_ N]. rewrite N. cbn. apply memz_In in Hin. rewrite Hin. now destruct added. }
+  destruct (upd_seg_inverse st1 n px (negb added) b' st2 WD1 Hrp1 Hn1
+              (upd_seg_fresh_after _ _ _ _ _ _ WD Hrp Hn H) Hpix1 H2) as (b'' & st3 & H3 & O3 & _).
+  exists b'', st3. split; [|now apply obs_eq_sym].
+  assert (Eb' : b' = BUpdSeg n px (negb added)).
+  { destruct (upd_seg_char _ _ _ _ _ _ H2 Hn1) as (sg1 & _ & _ & Eb & _). exact Eb. }
+  subst b'. exact H3.
+Qed.
+
+(* ================================================================== *)
+(* 7. AddNode / DeleteNode                                               *)
+(* ================================================================== *)
+(* ---- more about the array ---- *)
+Lemma write_frame_spec v idx : forall f s j, (j < length f)%nat ->
+  length (write_frame s f idx v) = length f /\
+  nth j (write_frame s f idx v) 0 = if memz (s + Z.of_nat j) idx then v else nth j f 0.
+Proof.
+  induction f as [|x r IH]; intros s j Hj; cbn in Hj; [lia|]. cbn [write_frame length]. destruct j as [|j].
+  - split; [|cbn; now rewrite Z.add_0_r]. f_equal. destruct r; [reflexivity|]. apply (IH (s + 1) 0%nat). cbn. lia.
+  - assert (Hj' : (j < length r)%nat) by lia. destruct (IH (s + 1) j Hj') as [L N]. split; [now rewrite L|].
+    cbn [nth]. rewrite N. now replace (s + 1 + Z.of_nat j) with (s + Z.of_nat (S j)) by lia.
+Qed.
+Lemma write_frame_len v idx f s : length (write_frame s f idx v) = length f.
+Proof. revert s. induction f as [|x r IH]; intros s; cbn; [reflexivity|]. now rewrite IH. Qed.
+
+Lemma write_frame_ext v idx idx' : forall f s,
+  (forall j, (j < length f)%nat -> memz (s + Z.of_nat j) idx = memz (s + Z.of_nat j) idx') ->
+  write_frame s f idx v = write_frame s f idx' v.
+Proof.
+  induction f as [|x r IH]; intros s H; cbn [write_frame]; [reflexivity|]. f_equal.
+  - specialize (H 0%nat). cbn in H. rewrite Z.add_0_r in H. rewrite H by lia. reflexivity.
+  - apply IH. intros j Hj. replace (s + 1 + Z.of_nat j) with (s + Z.of_nat (S j)) by lia. apply H. cbn. lia.
+Qed.
+
+Lemma upd_frame_nth k h : forall sg, (k < length sg)%nat -> nth k (upd_frame k h sg) [] = h (nth k sg []).
+Proof. induction k as [|k IH]; intros [|f r] Hk; cbn in *; try lia; [reflexivity|]. apply IH. lia. Qed.
+
+Lemma frame_ok_lt sg t : frame_ok sg t = true -> (Z.to_nat t < length sg)%nat /\ 0 <= t.
+Proof. unfold frame_ok. intros H. apply andb_true_iff in H. destruct H as [A B]. apply Z.leb_le in A. apply Z.ltb_lt in B. lia. Qed.
+
+Lemma frame_of_paint_same sg t idx v : frame_ok sg t = true ->
+  frame_of (paint_sg sg (t, idx) v) t = write_frame 0 (frame_of sg t) idx v.
+Proof. intros Hf. unfold frame_of, paint_sg. cbn [fst snd]. apply upd_frame_nth. apply (frame_ok_lt _ _ Hf). Qed.
+
+Lemma label_at_paint_same sg t idx v i : frame_ok sg t = true -> (i < length (frame_of sg t))%nat ->
+  label_at (paint_sg sg (t, idx) v) t i = if memz (Z.of_nat i) idx then v else label_at sg t i.
+Proof.
+  intros Hf Hi. unfold label_at. rewrite frame_of_paint_same by exact Hf. destruct (write_frame_spec v idx (frame_of sg t) 0 i Hi) as [_ N].
+  exact N.
+Qed.
+Lemma frame_len_paint sg t idx v : frame_ok sg t = true -> length (frame_of (paint_sg sg (t, idx) v) t) = length (frame_of sg t).
+Proof. intros Hf. rewrite frame_of_paint_same by exact Hf. apply write_frame_len. Qed.
+
+Lemma paint_ext sg t idx idx' v : frame_ok sg t = true ->
+  (forall j, (j < length (frame_of sg t))%nat -> memz (Z.of_nat j) idx = memz (Z.of_nat j) idx') ->
+  paint_sg sg (t, idx) v = paint_sg sg (t, idx') v.
+Proof.
+  intros Hf H. unfold paint_sg. cbn [fst snd]. destruct (frame_ok_lt _ _ Hf) as [Hlt _].
+  set (k := Z.to_nat t) in *. unfold frame_of in H. fold k in H. clearbody k. clear Hf.
+  revert k Hlt H. induction sg as [|f r IH]; intros k Hlt H; [destruct k; reflexivity|].
+  destruct k as [|k]; cbn [upd_frame].
+  - f_equal. apply write_frame_ext. intros j Hj. apply H. exact Hj.
+  - f_equal. apply IH; [cbn in Hlt; lia|]. exact H.
+Qed.
+
+Lemma positions_from_In n : forall f s p,
+  In p (positions_from s f n) <-> exists j, (j < length f)%nat /\ p = s + Z.of_nat j /\ nth j f 0 = n.
+Proof.
+  induction f as [|x r IH]; intros s p; cbn [positions_from].
+  - split; [intros []|intros (j & Hj & _); cbn in Hj; lia].
+  - assert (Hr : In p (positions_from (s + 1) r n) <-> exists j, (j < length r)%nat /\ p = s + Z.of_nat (S j) /\ nth (S j) (x :: r) 0 = n).
+    { rewrite IH. split; intros (j & A & B & C); exists j; (split; [exact A|split; [lia|exact C]]). }
+    split.
+    + intros Hin. assert (Hc : (x = n /\ p = s) \/ In p (positions_from (s + 1) r n)).
+      { destruct (Z.eqb_spec x n) as [E|E]; [destruct Hin as [<-|Hin]; [left; auto|now right]|now right]. }
+      destruct Hc as [[E ->]|Hc].
+      * exists 0%nat. cbn. split; [lia|split; [lia|exact E]].
+      * apply Hr in Hc. destruct Hc as (j & A & B & C). exists (S j). cbn [length]. split; [lia|auto].
+    + intros (j & Hj & -> & Hn). destruct j as [|j].
+      * cbn in Hn. subst x. rewrite Z.eqb_refl. left. cbn. lia.
+      * assert (Hc : In (s + Z.of_nat (S j)) (positions_from (s + 1) r n)).
+        { apply Hr. exists j. cbn [length] in Hj. split; [lia|auto]. }
+        destruct (x =? n); [now right|exact Hc].
+Qed.
+
+Lemma mask_of_In sg t n i : In (Z.of_nat i) (mask_of sg t n) <-> (i < length (frame_of sg t))%nat /\ label_at sg t i = n.
+Proof.
+  unfold mask_of, label_at. rewrite positions_from_In. split.
+  - intros (j & Hj & E & Hn). assert (i = j) by lia. subst j. auto.
+  - intros [Hi Hn]. exists i. split; [exact Hi|split; [lia|exact Hn]].
+Qed.
+
+(* painting n over background in a frame that has no n, then clearing the mask of n: the array is back *)
+Lemma unpaint sg t idx n : frame_ok sg t = true ->
+  (forall j, (j < length (frame_of sg t))%nat -> label_at sg t j <> n) ->
+  (forall j, (j < length (frame_of sg t))%nat -> In (Z.of_nat j) idx -> label_at sg t j = 0) ->
+  paint_sg (paint_sg sg (t, idx) n) (t, mask_of (paint_sg sg (t, idx) n) t n) 0 = sg.
+Proof.
+  intros Hf Hno Hbg. set (sg' := paint_sg sg (t, idx) n).
+  assert (Hf' : frame_ok sg' t = true) by (unfold sg'; now rewrite paint_frame_ok).
+  rewrite (paint_ext sg' t (mask_of sg' t n) idx 0 Hf').
+  - unfold sg'. apply (paint_back sg (t, idx) n 0 Hf). exact Hbg.
+  - intros j Hj. unfold sg' in Hj. rewrite frame_len_paint in Hj by exact Hf.
+    destruct (memz (Z.of_nat j) idx) eqn:Ei.
+    + apply memz_In. apply mask_of_In. unfold sg'. rewrite frame_len_paint by exact Hf. split; [exact Hj|].
+      rewrite label_at_paint_same by assumption. now rewrite Ei.
+    + apply memz_false. intros Hm. apply mask_of_In in Hm. destruct Hm as [_ Hm]. unfold sg' in Hm.
+      rewrite label_at_paint_same in Hm by assumption. rewrite Ei in Hm. exact (Hno j Hj Hm).
+Qed.
+
+Lemma paint_nil sg t v : paint_sg sg (t, []) v = sg.
+Proof.
+  unfold paint_sg. cbn [fst snd]. generalize (Z.to_nat t) as k.
+  assert (Hw : forall f s, write_frame s f [] v = f) by (induction f as [|x r IH]; intros s; cbn; [reflexivity|now rewrite IH]).
+  induction sg as [|f r IH]; intros [|k]; cbn [upd_frame]; try reflexivity; [now rewrite Hw|now rewrite IH].
+Qed.
+
+(* ---- the node dictionary while a new node is being filled in ---- *)
+Lemma lookup_app_new {V} (nd : dict V) n x : ~ In n (keys nd) -> lookup n (nd ++ [(n, x)]) = Some x.
+Proof. intros Hn. rewrite lookup_app. apply lookup_None_keys in Hn. rewrite Hn. cbn. now rewrite Z.eqb_refl. Qed.
+Lemma set_app_new {V} (nd : dict V) n x y : ~ In n (keys nd) -> set n y (nd ++ [(n, x)]) = nd ++ [(n, y)].
+Proof.
+  induction nd as [|[k v] r IH]; intros Hn; cbn; [now rewrite Z.eqb_refl|].
+  destruct (Z.eqb_spec n k) as [->|Hne]; [exfalso; apply Hn; now left|]. rewrite IH; [reflexivity|]. intros Hi. apply Hn. now right.
+Qed.
+
+Definition tail_node (nd : dict attrs) (sc : dict (dict attrs)) (n : Z) (s : state) : Prop :=
+  (exists d, nodes (g s) = nd ++ [(n, d)]) /\ succs (g s) = sc.
+
+Lemma sna_tail nd sc n s k v : ~ In n (keys nd) -> tail_node nd sc n s -> tail_node nd sc n (set_node_attr s n k v).
+Proof.
+  intros Hn [[d Hd] Hs]. split; [|now rewrite sna_succs].
+  unfold set_node_attr. rewrite Hd, (lookup_app_new nd n d Hn). cbn [g nodes upd_g]. exists (set k v d). now apply set_app_new.
+Qed.
+Lemma set_attrs_tail nd sc n a : ~ In n (keys nd) -> forall s, tail_node nd sc n s -> tail_node nd sc n (set_attrs s n a).
+Proof. intros Hn. unfold set_attrs. induction a as [|[k v] r IH]; intros s H; cbn [fold_left]; [exact H|]. apply IH. now apply sna_tail. Qed.
+Lemma rp_update_tail nd sc n : ~ In n (keys nd) -> forall s, tail_node nd sc n s -> tail_node nd sc n (rp_update s n).
+Proof.
+  intros Hn s H. unfold rp_update. destruct (seg s) as [sg|]; [|exact H].
+  generalize (match mask_of sg (time_of s n) n with [] => VNone | _ :: _ => VRp (mask_of sg (time_of s n) n) end). intros v.
+  generalize (rp_act (ft s)) as ks. intros ks. revert s H. induction ks as [|k r IH]; intros s0 H; cbn [fold_left]; [exact H|]. apply IH. now apply sna_tail.
+Qed.
+
+Lemma map_id_in {A} (f : A -> A) (l : list A) : (forall x, In x l -> f x = x) -> map f l = l.
+Proof. induction l as [|x r IH]; intros H; cbn; [reflexivity|]. rewrite H by (now left). rewrite IH; [reflexivity|]. intros y Hy. apply H. now right. Qed.
+
+(* no row of the adjacency mentions a non-node *)
+Lemma rows_without st n : W_dict st -> ~ is_node st n ->
+  map (fun ua : Z * dict attrs => (fst ua, del n (snd ua))) (succs (g st)) = succs (g st).
+Proof.
+  intros WD Hn. apply map_id_in. intros [u row] Hin. cbn [fst snd]. f_equal. apply del_notin. intros Hk.
+  apply Hn. apply (wd_edge_nodes st WD u n). unfold edge, has_edge, adj, getd.
+  rewrite (In_lookup u (succs (g st)) row (wd_succ_nodup st WD) Hin). now apply haskey_keys.
+Qed.
+
+Lemma add_node_graph_shape st n a : W_dict st -> ~ is_node st n ->
+  tail_node (nodes (g st)) (succs (g st) ++ [(n, [])]) n (add_node_graph st n a) /\
+  seg (add_node_graph st n a) = seg st /\ ft (add_node_graph st n a) = ft st /\ bk (add_node_graph st n a) = bk st.
+Proof.
+  intros WD Hn. destruct (add_node_graph_spec st n a Hn) as (st1 & [A _] & _ & En & Es & Eb & Ef).
+  assert (Hk : ~ In n (keys (nodes (g st)))) by exact Hn.
+  assert (Hsk : ~ In n (keys (succs (g st)))).
+  { intros Hi. apply Hn. apply (wd_succ_keys st WD n). now apply haskey_keys. }
+  split.
+  - unfold add_node_graph. cbv zeta. apply has_node_false in Hn. unfold has_node in Hn. rewrite Hn.
+    apply rp_update_tail; [exact Hk|]. apply set_attrs_tail; [exact Hk|]. split; [now exists []|].
+    cbn [g succs upd_g]. rewrite set_notin by exact Hsk. unfold getd. apply lookup_None_keys in Hsk. now rewrite Hsk.
+  - unfold add_node_graph. cbv zeta. apply has_node_false in Hn. unfold has_node in Hn. rewrite Hn.
+    match goal with |- seg (rp_update ?s n) = _ /\ _ => destruct (rp_update_upd_at s n) as [A2 _]; destruct (set_attrs_upd_at
+      (upd_g st {| nodes := nodes (g st) ++ [(n, [])]; succs := set n (getd n (succs (g st)) []) (succs (g st)) |}) n a) as [A1 _] end.
+    unfold set_attrs in A1. rewrite (au_seg _ _ A2), (au_ft _ _ A2), (au_bk _ _ A2), (au_seg _ _ A1), (au_ft _ _ A1), (au_bk _ _ A1).
+    auto.
+Qed.
+
+Lemma add_node_tail_char s n a px b s' : add_node_tail s n a px = Ok b s' -> b = BAddNode n a px /\ core_eq s s' .
+Proof.
+  unfold add_node_tail. destruct (negb (trk_act (ft s))); [intros H; injection H as <- <-; split; [reflexivity|apply core_eq_refl]|].
+  destruct (zattr s n KTrack); [|discriminate].
+  destruct (lin_act (ft s)); [destruct (zattr s n KLin)|]; intros H; injection H as <- <-; (split; [reflexivity|apply core_eq_upd_bk]).
+Qed.
+Lemma del_node_tail_char s n saved px : exists s', del_node_tail s n saved px = Ok (BDelNode n saved px) s' /\ core_eq s s'.
+Proof.
+  unfold del_node_tail. destruct (negb (trk_act (ft s))); eexists; (split; [reflexivity|]); [apply core_eq_refl|apply core_eq_upd_bk].
+Qed.
+
+(* the pixel side of the documented precondition of AddNode *)
+Definition add_node_px_ok (st : state) (n : Z) (a : attrs) (px : option pixels) : Prop :=
+  forall sg, seg st = Some sg -> exists t,
+    (forall v, In (KTime, v) a -> v = VZ t) /\ frame_ok sg t = true /\
+    (forall j, (j < length (frame_of sg t))%nat -> label_at sg t j <> n) /\
+    match px with
+    | None => True
+    | Some p => fst p = t /\ forall j, (j < length (frame_of sg t))%nat -> In (Z.of_nat j) (snd p) -> label_at sg t j = 0
+    end.
+
+(* the attributes of the freshly added node *)
+Lemma add_node_graph_attr st n a k : ~ is_node st n -> ~ In k (rp_act (ft st)) \/ seg st = None ->
+  attr (add_node_graph st n a) n k = last_binding k a None.
+Proof.
+  intros Hn Hk. destruct (add_node_graph_spec st n a Hn) as (st1 & _ & [_ F2] & En & Es & Eb & Ef).
+  assert (Hn1 : is_node st1 n) by (unfold is_node, node_ids; rewrite En, keys_app, in_app_iff; right; now left).
+  assert (E0 : attr st1 n k = None).
+  { assert (E : lookup n (nodes (g st1)) = Some []) by (rewrite En; apply lookup_app_new; exact Hn).
+    unfold attr, node_attrs, getd. now rewrite E. }
+  destruct Hk as [Hk|Hk].
+  - rewrite F2 by (now right). now rewrite (set_attrs_attr st1 n a Hn1 k), E0.
+  - unfold add_node_graph. cbv zeta. pose proof Hn as Hn'. apply has_node_false in Hn. unfold has_node in Hn. rewrite Hn.
+    unfold rp_update.
+    match goal with |- attr (match seg ?s with _ => _ end) _ _ = _ => assert (Es0 : seg s = None) end.
+    { match goal with |- seg (fold_left _ a ?s) = None => destruct (set_attrs_upd_at s n a) as [A _] end.
+      unfold set_attrs in A. rewrite (au_seg _ _ A). exact Hk. }
+    rewrite Es0.
+    match goal with |- attr (fold_left _ a ?s) n k = _ => change (attr (set_attrs s n a) n k = last_binding k a None); rewrite (set_attrs_attr s n a) end.
+    + f_equal. match goal with |- attr ?s n k = None => assert (E : lookup n (nodes (g s)) = Some []) by (cbn [g nodes upd_g]; apply lookup_app_new; exact Hn') end.
+      unfold attr, node_attrs, getd. cbn [g nodes upd_g] in *. now rewrite E.
+    + unfold is_node, node_ids. cbn [g nodes upd_g]. rewrite keys_app, in_app_iff. right. now left.
+Qed.
+
+Lemma mask_of_none sg t n : (forall j, (j < length (frame_of sg t))%nat -> label_at sg t j <> n) -> mask_of sg t n = [].
+Proof.
+  intros H. destruct (mask_of sg t n) as [|p r] eqn:E; [reflexivity|exfalso].
+  assert (Hin : In p (mask_of sg t n)) by (rewrite E; now left). unfold mask_of in Hin. apply positions_from_In in Hin.
+  destruct Hin as (j & Hj & _ & Hn). exact (H j Hj Hn).
+Qed.
+
+(* AddNode of a new id painted over background, then its inverse: graph and array literally restored *)
+Theorem add_node_inverse st n a px b st1 :
+  W_dict st -> ~ is_node st n -> rp_disjoint st -> add_node_px_ok st n a px ->
+  do_add_node st n a px = Ok b st1 ->
+  exists b' st2, inv_basic st1 b = Ok b' st2 /\ core_eq st st2.
+Proof.
+  intros WD Hn Hrp Hpx H. rewrite do_add_node_eq in H.
+  destruct (haskey KTime a) eqn:Hkt; [|discriminate]. cbn [negb] in H. destruct (negb (haskey KTrack a)); [discriminate|].
+  destruct (match px with None => _ | Some _ => false end); [discriminate|].
+  destruct (match px with Some p => set_pixels st p n | None => Ok tt st end) as [u st0|e st0] eqn:Ep; [|discriminate].
+  cbn [bind] in H. destruct (add_node_tail_char _ _ _ _ _ _ H) as [-> C31]. clear H.
+  destruct (opt_set_pixels_ok _ _ _ _ _ Ep) as (Eg & Eb & Ef & _).
+  assert (WD0 : W_dict st0) by (now apply (W_dict_same_g st st0)).
+  assert (Hn0 : ~ is_node st0 n) by (unfold is_node, node_ids; now rewrite Eg).
+  set (st3 := add_node_graph st0 n a) in *.
+  destruct (add_node_graph_shape st0 n a WD0 Hn0) as ([[d Hd] Hsc] & S3 & F3 & _). fold st3 in Hd, Hsc, S3, F3.
+  rewrite Eg in Hd, Hsc.
+  assert (Hk : ~ In n (keys (nodes (g st)))) by exact Hn.
+  assert (Hsk : ~ In n (keys (succs (g st)))).
+  { intros Hi. apply Hn. apply (wd_succ_keys st WD n). now apply haskey_keys. }
+  (* it is enough to invert in st3, which has the same core as st1 *)
+  assert (Hgoal : exists b' s2, do_del_node st3 n None = Ok b' s2 /\ core_eq st s2).
+  { rewrite do_del_node_eq. rewrite Hd, (lookup_app_new _ n d Hk). cbv zeta.
+    assert (Hg3 : forall s, g s = g st3 -> g (del_node_graph s n) = g st).
+    { intros s Hs. unfold del_node_graph. cbn [g upd_g]. rewrite Hs, Hd, Hsc, !del_app.
+      cbn [del]. rewrite Z.eqb_refl, !app_nil_r, !del_notin by assumption. rewrite (rows_without st n WD Hn). apply graph_eta. }
+    unfold get_pixels. rewrite S3. destruct (seg st) as [sg|] eqn:Hs.
+    - destruct (Hpx sg Hs) as (t & Ht & Hf & Hno & Hp).
+      set (idx0 := match px with Some p => snd p | None => [] end).
+      assert (Es0 : seg st0 = Some (paint_sg sg (t, idx0) n)).
+      { unfold idx0. destruct px as [[t' idx]|].
+        - destruct Hp as [Et _]. cbn in Et. subst t'. destruct (set_pixels_char _ _ _ _ _ Ep) as (sg1 & Hs1 & _ & ->).
+          rewrite Hs in Hs1. injection Hs1 as <-. reflexivity.
+        - injection Ep as _ E0. rewrite <- E0, paint_nil. exact Hs. }
+      rewrite Es0.
+      assert (Etime : time_of st3 n = t).
+      { unfold time_of, zattr. unfold st3. rewrite add_node_graph_attr; [|exact Hn0|left; rewrite Ef; apply Hrp; unfold id_key; auto].
+        rewrite (last_binding_const KTime a (VZ t) None Ht); [reflexivity|]. now apply haskey_keys. }
+      rewrite Etime. set (sg3 := paint_sg sg (t, idx0) n).
+      assert (Hf3 : frame_ok sg3 t = true) by (unfold sg3; now rewrite paint_frame_ok).
+      assert (Es3 : seg st3 = Some sg3) by (now rewrite S3).
+      rewrite (set_pixels_run st3 sg3 (t, mask_of sg3 t n) 0 Es3 Hf3). cbn [bind].
+      destruct (del_node_tail_char (del_node_graph (upd_seg st3 (Some (paint_sg sg3 (t, mask_of sg3 t n) 0))) n) n
+                  (saved_attrs (reg_node (ft st3)) d) (Some (t, mask_of sg3 t n))) as (s2 & H2 & C2).
+      eexists _, s2. split; [exact H2|]. eapply core_eq_trans; [|exact C2].
+      unfold core_eq. split; [now apply Hg3|]. cbn [seg ft del_node_graph upd_g upd_seg]. split; [|now rewrite F3, Ef].
+      unfold sg3. rewrite unpaint; [now rewrite Hs|exact Hf|exact Hno|].
+      unfold idx0. destruct px as [p|]; [apply Hp|intros j _ []].
+    - assert (Es0 : seg st0 = None).
+      { destruct px as [p|]; [|injection Ep as _ E0; rewrite <- E0; exact Hs]. destruct (set_pixels_char _ _ _ _ _ Ep) as (sg1 & Hs1 & _). congruence. }
+      rewrite Es0. cbn [bind].
+      destruct (del_node_tail_char (del_node_graph st3 n) n (saved_attrs (reg_node (ft st3)) d) None) as (s2 & H2 & C2).
+      eexists _, s2. split; [exact H2|]. eapply core_eq_trans; [|exact C2].
+      unfold core_eq. split; [now apply Hg3|]. cbn [seg ft del_node_graph upd_g]. rewrite S3, F3, Es0, Ef. auto. }
+  destruct Hgoal as (b' & s2 & H2 & C2).
+  destruct (inv_basic_at st3 st1 (BAddNode n a px) b' s2 C31 H2) as (s2' & H2' & C2').
+  exists b', s2'. split; [exact H2'|]. eapply core_eq_trans; eauto.
+Qed.
+
+(* ---- DeleteNode then AddNode ---- *)
+Definition del_node_px_ok (st : state) (n : Z) (pxo : option pixels) : Prop :=
+  match pxo with
+  | None => True
+  | Some p => forall sg j, seg st = Some sg -> (j < length (frame_of sg (fst p)))%nat -> In (Z.of_nat j) (snd p) -> label_at sg (fst p) j = n
+  end.
+(* without a segmentation the node needs a stored position to be re-creatable *)
+Definition pos_ok (st : state) (n : Z) : Prop :=
+  seg st = None -> forall k, In k (pos_keys (ft st)) -> In k (reg_node (ft st)) /\ exists v, attr st n k = Some v /\ v <> VNone.
+Definition isolated (st : state) (n : Z) : Prop := forall m, has_edge st n m = false /\ has_edge st m n = false.
+
+Lemma del_node_graph_adj st n u : adj (del_node_graph st n) u = if u =? n then [] else del n (adj st u).
+Proof.
+  unfold adj at 1, del_node_graph, getd. cbn [g succs upd_g]. rewrite lookup_map_vals.
+  destruct (Z.eqb_spec u n) as [->|Hu]; [now rewrite lookup_del_eq|]. rewrite lookup_del_neq by exact Hu.
+  unfold adj, getd. destruct (lookup u (succs (g st))); reflexivity.
+Qed.
+
+Theorem del_node_inverse st n pxo b st1 :
+  W_dict st -> cfg_ok st -> rp_disjoint st -> isolated st n -> seg_fresh_at st n -> del_node_px_ok st n pxo -> pos_ok st n ->
+  do_del_node st n pxo = Ok b st1 ->
+  exists b' st2, inv_basic st1 b = Ok b' st2 /\ obs_eq st st2.
+Proof.
+  intros WD (Cta & Cla & Crt & Crk & Crl) Hrp Hiso Hfr Hpx Hpos H.
+  pose proof (del_node_W_dict _ _ _ _ _ H WD) as WD1.
+  rewrite do_del_node_eq in H. destruct (lookup n (nodes (g st))) as [d|] eqn:Ed; [|discriminate]. cbv zeta in H.
+  assert (Hn : is_node st n) by (apply is_node_lookup; now exists d).
+  assert (Hd : node_attrs st n = d) by (unfold node_attrs, getd; now rewrite Ed).
+  set (saved := saved_attrs (reg_node (ft st)) d) in *.
+  set (px := match pxo with Some p => Some p | None => get_pixels st n end) in *.
+  destruct (match px with Some p => set_pixels st p 0 | None => Ok tt st end) as [u st0|e st0] eqn:Ep; [|discriminate].
+  cbn [bind] in H. destruct (opt_set_pixels_ok _ _ _ _ _ Ep) as (Eg & Eb & Ef & _).
+  destruct (del_node_tail_char (del_node_graph st0 n) n saved px) as (s' & H' & CD1). rewrite H in H'. injection H' as -> <-. clear H.
+  set (sD := del_node_graph st0 n) in *.
+  destruct (wd_time st WD n Hn) as [t Et]. destruct (wd_track st WD n Hn) as [T ET].
+  assert (Est : lookup KTime saved = Some (VZ t)).
+  { apply saved_attrs_lookup; [exact Crt| |discriminate]. unfold attr in Et. now rewrite Hd in Et. }
+  assert (Esk : lookup KTrack saved = Some (VZ T)).
+  { apply saved_attrs_lookup; [exact Crk| |discriminate]. unfold attr in ET. now rewrite Hd in ET. }
+  assert (Hall : forall k v, In (k, v) saved -> lookup k d = Some v /\ v <> VNone /\ In k (reg_node (ft st))).
+  { intros k v Hin. apply saved_attrs_in in Hin. tauto. }
+  assert (Hlast : forall k v, lookup k saved = Some v -> last_binding k saved None = Some v).
+  { intros k v E. apply last_binding_const; [|eapply lookup_Some_keys; eauto].
+    intros v' Hin. apply lookup_In in E. destruct (Hall k v E) as (A & _). destruct (Hall k v' Hin) as (A' & _). congruence. }
+  (* the array: what DeleteNode cleared is what AddNode paints *)
+  assert (Hseg : match px with
+                 | Some p => exists sg, seg st = Some sg /\ frame_ok sg (fst p) = true /\ seg st0 = Some (paint_sg sg p 0) /\
+                              paint_sg (paint_sg sg p 0) p n = sg
+                 | None => seg st = None /\ seg st0 = None /\ pxo = None
+                 end).
+  { destruct px as [p|] eqn:Epx.
+    - destruct (set_pixels_char _ _ _ _ _ Ep) as (sg & Hs & Hf & ->). exists sg. split; [exact Hs|]. split; [exact Hf|]. split; [reflexivity|].
+      apply paint_back; [exact Hf|]. intros i Hi Hin. unfold px in Epx. destruct pxo as [p0|].
+      + injection Epx as ->. apply (Hpx sg i Hs Hi Hin).
+      + unfold get_pixels in Epx. rewrite Hs in Epx. injection Epx as <-. cbn [fst snd] in *. apply mask_of_In in Hin. apply Hin.
+    - unfold px in Epx. destruct pxo as [p0|]; [discriminate|]. unfold get_pixels in Epx. destruct (seg st) eqn:Hs; [discriminate|].
+      injection Ep as _ <-. auto. }
+  (* enough to invert in sD *)
+  assert (Hgoal : exists b' s2, do_add_node sD n saved px = Ok b' s2 /\ obs_eq st s2).
+  { rewrite do_add_node_eq. rewrite (lookup_Some_haskey _ _ _ Est), (lookup_Some_haskey _ _ _ Esk). cbn [negb].
+    assert (Hposchk : match px with None => negb (all_in (pos_keys (ft sD)) saved) | Some _ => false end = false).
+    { destruct px as [p|]; [reflexivity|]. destruct Hseg as (Hs & _ & _). apply negb_false_iff. unfold all_in. apply forallb_forall.
+      intros k Hk. change (ft sD) with (ft st0) in Hk. rewrite Ef in Hk. destruct (Hpos Hs k Hk) as (Hr & v & Ev & Hv).
+      apply lookup_Some_haskey with (v := v). apply saved_attrs_lookup; [exact Hr| |exact Hv]. unfold attr in Ev. now rewrite Hd in Ev. }
+    rewrite Hposchk.
+    assert (HnD : forall s, g s = g sD -> ~ is_node s n).
+    { intros s Hs Hi. unfold is_node, node_ids in Hi. rewrite Hs in Hi. unfold sD, del_node_graph in Hi. cbn [g nodes upd_g] in Hi.
+      apply in_keys_del in Hi. now destruct Hi. }
+    assert (WDD : W_dict sD) by (apply (core_W_dict st1 sD); [now apply core_eq_sym|exact WD1]).
+    (* the state after re-painting *)
+    assert (Hpaint : exists sD0, (match px with Some p => set_pixels sD p n | None => Ok tt sD end) = Ok tt sD0 /\
+                       g sD0 = g sD /\ ft sD0 = ft st /\ seg sD0 = seg st).
+    { destruct px as [p|].
+      - destruct Hseg as (sg & Hs & Hf & Hs0 & Hback).
+        assert (HsD : seg sD = Some (paint_sg sg p 0)) by exact Hs0.
+        rewrite (set_pixels_run sD _ p n HsD) by (now rewrite paint_frame_ok).
+        eexists. split; [reflexivity|]. cbn [g ft seg upd_seg]. rewrite Hback. split; [reflexivity|]. split; [exact Ef|now rewrite Hs].
+      - destruct Hseg as (Hs & Hs0 & _). exists sD. split; [reflexivity|]. split; [reflexivity|]. split; [exact Ef|]. now rewrite Hs. }
+    destruct Hpaint as (sD0 & Hp0 & Eg0 & Ef0 & Es0). rewrite Hp0. cbn [bind].
+    assert (Hn0 : ~ is_node sD0 n) by (now apply HnD).
+    assert (WD0 : W_dict sD0) by (now apply (W_dict_same_g sD sD0)).
+    set (s3 := add_node_graph sD0 n saved).
+    destruct (add_node_graph_shape sD0 n saved WD0 Hn0) as (_ & S3 & F3 & _). fold s3 in S3, F3.
+    destruct (add_node_graph_nodes sD0 n saved Hn0) as (Eids & _ & _ & Hat). cbv zeta in Eids, Hat. fold s3 in Eids, Hat.
+    destruct (add_node_graph_spec sD0 n saved Hn0) as (sa & [A _] & _ & Ena & Esa & _ & _). fold s3 in A.
+    assert (Hrp0 : rp_disjoint sD0) by (unfold rp_disjoint; now rewrite Ef0).
+    assert (Hattr_n : forall k, ~ In k (rp_act (ft st)) \/ seg st = None -> attr s3 n k = last_binding k saved None).
+    { intros k Hk. unfold s3. apply add_node_graph_attr; [exact Hn0|]. now rewrite Ef0, Es0. }
+    assert (Etrk : zattr s3 n KTrack = Some T).
+    { apply zattr_VZ. rewrite Hattr_n by (left; apply Hrp; unfold id_key; auto). now apply Hlast. }
+    assert (Etime : time_of s3 n = t).
+    { unfold time_of. rewrite (zattr_VZ s3 n KTime t); [reflexivity|]. rewrite Hattr_n by (left; apply Hrp; unfold id_key; auto). now apply Hlast. }
+    destruct (add_node_tail s3 n saved px) as [b' s2|e s2] eqn:Ht.
+    2:{ exfalso. unfold add_node_tail in Ht. rewrite F3, Ef0, Cta, Etrk in Ht. cbn [negb] in Ht.
+        destruct (lin_act (ft st)); [destruct (zattr s3 n KLin)|]; discriminate. }
+    exists b', s2. split; [reflexivity|]. destruct (add_node_tail_char _ _ _ _ _ _ Ht) as [_ C32].
+    eapply obs_eq_trans; [|apply core_eq_obs; exact C32].
+    (* adjacency of s3 *)
+    assert (Hadj : forall x, adj s3 x = if x =? n then [] else del n (adj st x)).
+    { intros x. unfold adj at 1. rewrite (au_succs _ _ A), Esa, Eg0.
+      assert (HnD' : getd n (succs (g sD)) [] = []).
+      { pose proof (del_node_graph_adj st0 n n) as X. rewrite Z.eqb_refl in X. exact X. }
+      rewrite HnD'. destruct (Z.eqb_spec x n) as [->|Hx]; [apply getd_set_eq|]. rewrite getd_set_neq by exact Hx.
+      pose proof (del_node_graph_adj st0 n x) as X. unfold adj at 1 in X. fold sD in X. rewrite X.
+      destruct (Z.eqb_spec x n); [contradiction|]. unfold adj. now rewrite Eg. }
+    assert (HE : forall x y, has_edge s3 x y = has_edge st x y).
+    { intros x y. unfold has_edge at 1. rewrite Hadj. destruct (Z.eqb_spec x n) as [->|Hx].
+      - symmetry. apply (Hiso y).
+      - rewrite haskey_del. destruct (Z.eqb_spec y n) as [->|Hy]; [symmetry; apply (Hiso x)|reflexivity]. }
+    assert (HEA : forall x y, edge_attrs s3 x y = edge_attrs st x y).
+    { intros x y. unfold edge_attrs at 1. rewrite Hadj. destruct (Z.eqb_spec x n) as [->|Hx].
+      - destruct (Hiso y) as [Hy _]. unfold has_edge, haskey in Hy. unfold edge_attrs, getd. destruct (lookup y (adj st n)); [discriminate|reflexivity].
+      - destruct (Z.eq_dec y n) as [->|Hy]; [|now rewrite getd_del_neq].
+        rewrite getd_del_eq. destruct (Hiso x) as [_ Hy]. unfold has_edge, haskey in Hy. unfold edge_attrs, getd. destruct (lookup n (adj st x)); [discriminate|reflexivity]. }
+    assert (HinD : forall m, is_node sD0 m <-> m <> n /\ is_node st m).
+    { intros m. unfold is_node, node_ids. rewrite Eg0. unfold sD, del_node_graph. cbn [g nodes upd_g]. rewrite Eg. apply in_keys_del. }
+    assert (HatD : forall m k, m <> n -> attr sD0 m k = attr st m k).
+    { intros m k Hm. unfold attr, node_attrs. rewrite Eg0. unfold sD, del_node_graph. cbn [g nodes upd_g]. rewrite Eg. unfold getd. now rewrite lookup_del_neq. }
+    constructor.
+    - intros m. unfold is_node at 1. rewrite Eids, in_app_iff. fold (is_node sD0 m). rewrite HinD. cbn [In].
+      split; [intros [[_ X]|[<-|[]]]; assumption|]. intros X. destruct (Z.eq_dec m n) as [->|Hm]; [right; now left|left; now split].
+    - exact HE.
+    - intros m k Hk. unfold attr_obs. destruct (Z.eq_dec m n) as [->|Hm]; [|now rewrite Hat, HatD].
+      assert (Hplain : attr s3 n k = last_binding k saved None -> obsv (attr s3 n k) = obsv (attr st n k)).
+      { intros E. rewrite E. unfold attr. rewrite Hd. apply (obs_saved (reg_node (ft st)) d k _ Hk).
+        - intros v Ev Hv. apply Hlast. now apply saved_attrs_lookup.
+        - intros Hc. apply last_binding_notin. intros Hi. apply saved_attrs_keys in Hi. destruct Hi as (_ & v & Ev & Hv). destruct Hc; congruence. }
+      destruct (seg st) as [sg|] eqn:Hs; [|apply Hplain, Hattr_n; now right].
+      destruct (in_dec Z.eq_dec k (rp_act (ft st))) as [Hi|Hi]; [|apply Hplain, Hattr_n; now left].
+      f_equal. destruct (Hfr sg Hs) as [Fr _]. rewrite (Fr k Hi).
+      (* the recomputed regionprops value *)
+      set (sb := set_attrs (upd_g sD0 {| nodes := nodes (g sD0) ++ [(n, [])]; succs := set n (getd n (succs (g sD0)) []) (succs (g sD0)) |}) n saved).
+      assert (E3 : s3 = rp_update sb n).
+      { unfold s3, add_node_graph. cbv zeta. pose proof Hn0 as Hn0'. apply has_node_false in Hn0'. unfold has_node in Hn0'. now rewrite Hn0'. }
+      assert (Hsb : seg sb = Some sg /\ ft sb = ft st /\ is_node sb n).
+      { unfold sb. match goal with |- context [set_attrs ?s0 n saved] => destruct (set_attrs_upd_at s0 n saved) as [A1 _] end.
+        rewrite (au_seg _ _ A1), (au_ft _ _ A1). cbn [seg ft upd_g]. split; [now rewrite Es0|]. split; [exact Ef0|].
+        apply (attr_upd_is_node _ _ n A1). unfold is_node, node_ids. cbn [g nodes upd_g]. rewrite keys_app, in_app_iff. right. now left. }
+      destruct Hsb as (Sb1 & Sb2 & Sb3).
+      assert (Etb : time_of sb n = t).
+      { rewrite <- Etime, E3. symmetry. apply time_of_same. destruct (rp_update_upd_at sb n) as [_ Fb]. apply Fb. right. rewrite Sb2. apply Hrp. unfold id_key. auto. }
+      rewrite E3, (rp_update_spec sb n sg Sb1 Sb3 k) by (now rewrite Sb2). rewrite Etb.
+      unfold time_of. now rewrite (zattr_VZ st n KTime t Et).
+    - intros x y k _. unfold eattr_obs. now rewrite HEA.
+    - now rewrite S3, Es0.
+    - now rewrite F3, Ef0. }
+  destruct Hgoal as (b' & s2 & H2 & O2).
+  destruct (inv_basic_at sD st1 (BDelNode n saved px) b' s2 CD1 H2) as (s2' & H2' & C2').
+  exists b', s2'. split; [exact H2'|]. eapply obs_eq_trans; [exact O2|now apply core_eq_obs].
+Qed.
+
+(* ---- the two-sided laws for nodes ---- *)
+Lemma isolated_non_node st n : W_dict st -> ~ is_node st n -> isolated st n.
+Proof.
+  intros WD Hn m. split.
+  - destruct (has_edge st n m) eqn:E; [|reflexivity]. exfalso. apply Hn. apply (wd_edge_nodes st WD n m E).
+  - destruct (has_edge st m n) eqn:E; [|reflexivity]. exfalso. apply Hn. apply (wd_edge_nodes st WD m n E).
+Qed.
+
+Lemma add_node_effect st n a px b st1 : W_dict st -> ~ is_node st n -> rp_disjoint st -> do_add_node st n a px = Ok b st1 ->
+  b = BAddNode n a px /\ ft st1 = ft st /\ is_node st1 n /\ (seg st1 = None <-> seg st = None) /\
+  (forall x, adj st1 x = adj st x) /\
+  (forall k, ~ In k (rp_act (ft st)) \/ seg st1 = None -> attr st1 n k = last_binding k a None) /\
+  (forall sg1 k, seg st1 = Some sg1 -> In k (rp_act (ft st)) -> attr st1 n k = Some (rpval (mask_of sg1 (time_of st1 n) n))).
+Proof.
+  intros WD Hn Hrp H. rewrite do_add_node_eq in H.
+  destruct (negb (haskey KTime a)); [discriminate|]. destruct (negb (haskey KTrack a)); [discriminate|].
+  destruct (match px with None => _ | Some _ => false end); [discriminate|].
+  destruct (match px with Some p => set_pixels st p n | None => Ok tt st end) as [u st0|e st0] eqn:Ep; [|discriminate].
+  cbn [bind] in H. destruct (add_node_tail_char _ _ _ _ _ _ H) as [-> C31]. clear H.
+  destruct (opt_set_pixels_ok _ _ _ _ _ Ep) as (Eg & Eb & Ef & _).
+  assert (WD0 : W_dict st0) by (now apply (W_dict_same_g st st0)).
+  assert (Hn0 : ~ is_node st0 n) by (unfold is_node, node_ids; now rewrite Eg).
+  set (st3 := add_node_graph st0 n a) in *.
+  destruct (add_node_graph_shape st0 n a WD0 Hn0) as ([[d Hd] Hsc] & S3 & F3 & _). fold st3 in Hd, Hsc, S3, F3.
+  destruct C31 as (Cg & Cs & Cf).
+  assert (Hsk : ~ In n (keys (succs (g st)))).
+  { intros Hi. apply Hn. apply (wd_succ_keys st WD n). now apply haskey_keys. }
+  assert (Hs0 : seg st0 = None <-> seg st = None).
+  { destruct px as [p|]; [|injection Ep as _ E0; now rewrite <- E0]. destruct (set_pixels_char _ _ _ _ _ Ep) as (sg1 & Hs1 & _ & ->).
+    cbn [seg upd_seg]. rewrite Hs1. split; discriminate. }
+  split; [reflexivity|]. split; [now rewrite Cf, F3|]. split; [|split; [|split; [|split]]].
+  - unfold is_node, node_ids. rewrite Cg, Hd, keys_app, in_app_iff. right. now left.
+  - rewrite Cs, S3. exact Hs0.
+  - intros x. unfold adj. rewrite Cg, Hsc, Eg. unfold getd. rewrite lookup_app.
+    destruct (lookup x (succs (g st))) eqn:E; [reflexivity|]. cbn. destruct (x =? n); reflexivity.
+  - intros k Hk. unfold attr, node_attrs. rewrite Cg. fold (node_attrs st3 n). fold (attr st3 n k).
+    unfold st3. apply add_node_graph_attr; [exact Hn0|]. rewrite Ef. destruct Hk as [Hk|Hk]; [now left|right]. now rewrite Cs, S3 in Hk.
+  - intros sg1 k Hs1 Hk.
+    set (sb := set_attrs (upd_g st0 {| nodes := nodes (g st0) ++ [(n, [])]; succs := set n (getd n (succs (g st0)) []) (succs (g st0)) |}) n a).
+    assert (E3 : st3 = rp_update sb n).
+    { unfold st3, add_node_graph. cbv zeta. pose proof Hn0 as Hn0'. apply has_node_false in Hn0'. unfold has_node in Hn0'. now rewrite Hn0'. }
+    assert (Hsb : seg sb = seg st0 /\ ft sb = ft st /\ is_node sb n).
+    { unfold sb. match goal with |- context [set_attrs ?s0 n a] => destruct (set_attrs_upd_at s0 n a) as [A1 _] end.
+      rewrite (au_seg _ _ A1), (au_ft _ _ A1). cbn [seg ft upd_g]. split; [reflexivity|]. split; [exact Ef|].
+      apply (attr_upd_is_node _ _ n A1). unfold is_node, node_ids. cbn [g nodes upd_g]. rewrite keys_app, in_app_iff. right. now left. }
+    destruct Hsb as (Sb1 & Sb2 & Sb3).
+    assert (Et : time_of st1 n = time_of sb n).
+    { unfold time_of, zattr, attr, node_attrs. rewrite Cg. fold (node_attrs st3 n). fold (attr st3 n KTime). rewrite E3.
+      destruct (rp_update_upd_at sb n) as [_ Fb]. rewrite Fb; [reflexivity|]. right. rewrite Sb2. apply Hrp. unfold id_key. auto. }
+    unfold attr, node_attrs. rewrite Cg. fold (node_attrs st3 n). fold (attr st3 n k). rewrite E3, Et.
+    apply rp_update_spec; [|exact Sb3|now rewrite Sb2]. rewrite Sb1, <- S3, <- Cs. exact Hs1.
+Qed.
+
+Theorem C01_add_node_law st n a px b st1 t0 T L :
+  W_dict st -> cfg_ok st -> rp_disjoint st -> ~ is_node st n -> add_node_px_ok st n a px ->
+  NoDup (keys a) -> lookup KTime a = Some (VZ t0) -> lookup KTrack a = Some (VZ T) -> lookup KLin a = Some (VZ L) ->
+  (seg st = None -> forall k, In k (pos_keys (ft st)) -> In k (reg_node (ft st)) /\ exists v, lookup k a = Some v /\ v <> VNone) ->
+  do_add_node st n a px = Ok b st1 -> inverts st st1 b.
+Proof.
+  intros WD Cfg Hrp Hn Hpx Hnd Ha0 Ha1 Ha2 Hpos H.
+  destruct (add_node_inverse _ _ _ _ _ _ WD Hn Hrp Hpx H) as (b' & st2 & H2 & C2).
+  exists b', st2. split; [exact H2|]. split; [apply obs_eq_sym, core_eq_obs, C2|].
+  pose proof (add_node_W_dict _ _ _ _ _ _ _ _ _ Hn Hrp Hnd Ha0 Ha1 Ha2 H WD) as WD1.
+  destruct (add_node_effect _ _ _ _ _ _ WD Hn Hrp H) as (-> & Ef & Hn1 & Hsn & Hadj & Hplain & Hrpv).
+  cbn [inv_basic] in H2.
+  assert (Hiso : isolated st1 n).
+  { intros m. destruct (isolated_non_node st n WD Hn m) as [A B]. unfold has_edge in *. now rewrite !Hadj. }
+  assert (Hfr : seg_fresh_at st1 n).
+  { intros sg1 Hs1. split.
+    - intros k Hk. rewrite Ef in Hk. now apply Hrpv.
+    - intros _ x y He Hxy. exfalso. destruct Hxy as [-> | ->]; [destruct (Hiso y)|destruct (Hiso x)]; congruence. }
+  assert (Hpos1 : pos_ok st1 n).
+  { intros Hs1 k Hk. rewrite Ef in Hk |- *.
+    assert (Hs : seg st = None) by (now apply Hsn).
+    destruct (Hpos Hs k Hk) as (Hr & v & Ev & Hv). split; [exact Hr|]. exists v. split; [|exact Hv].
+    rewrite Hplain by (now right). apply last_binding_const; [|eapply lookup_Some_keys; eauto].
+    intros v' Hin. apply (In_lookup k a v' Hnd) in Hin. congruence. }
+  assert (Cfg1 : cfg_ok st1) by (unfold cfg_ok; now rewrite Ef).
+  assert (Hrp1 : rp_disjoint st1) by (unfold rp_disjoint; now rewrite Ef).
+  destruct (del_node_inverse st1 n None _ st2 WD1 Cfg1 Hrp1 Hiso Hfr I Hpos1 H2) as (b'' & st3 & H3 & O3).
+  assert (Eb' : exists sv pe, b' = BDelNode n sv pe).
+  { rewrite do_del_node_eq in H2. destruct (lookup n (nodes (g st1))); [|discriminate]. cbv zeta in H2.
+    destruct (match get_pixels st1 n with Some p => set_pixels st1 p 0 | None => Ok tt st1 end); [|discriminate]. cbn [bind] in H2.
+    match type of H2 with del_node_tail ?s n ?sv ?pe = _ => destruct (del_node_tail_char s n sv pe) as (s' & Hs' & _); rewrite H2 in Hs'; injection Hs' as -> _; now exists sv, pe end. }
+  destruct Eb' as (sv & pe & ->).
+  exists b'', st3. split; [exact H3|]. now apply obs_eq_sym.
+Qed.
+
+Definition del_node_px_exact (st : state) (n : Z) (pxo : option pixels) : Prop :=
+  match pxo with
+  | None => True
+  | Some p => forall sg, seg st = Some sg -> fst p = time_of st n /\
+                forall j, (j < length (frame_of sg (fst p)))%nat -> (In (Z.of_nat j) (snd p) <-> label_at sg (fst p) j = n)
+  end.
+
+Theorem C01_del_node_law st n pxo b st1 :
+  W_dict st -> cfg_ok st -> rp_disjoint st -> isolated st n -> seg_fresh_at st n -> del_node_px_exact st n pxo -> pos_ok st n ->
+  (seg st <> None -> n <> 0) ->
+  do_del_node st n pxo = Ok b st1 -> inverts st st1 b.
+Proof.
+  intros WD Cfg Hrp Hiso Hfr Hex Hpos Hn0 H.
+  assert (Hpx : del_node_px_ok st n pxo).
+  { unfold del_node_px_ok. destruct pxo as [p|]; [|exact I]. intros sg j Hs Hj Hin. destruct (Hex sg Hs) as [_ X]. now apply X. }
+  destruct (del_node_inverse _ _ _ _ _ WD Cfg Hrp Hiso Hfr Hpx Hpos H) as (b' & st2 & H2 & O2).
+  exists b', st2. split; [exact H2|]. split; [now apply obs_eq_sym|].
+  pose proof (del_node_W_dict _ _ _ _ _ H WD) as WD1.
+  rewrite do_del_node_eq in H. destruct (lookup n (nodes (g st))) as [d|] eqn:Ed; [|discriminate]. cbv zeta in H.
+  assert (Hn : is_node st n) by (apply is_node_lookup; now exists d).
+  assert (Hd : node_attrs st n = d) by (unfold node_attrs, getd; now rewrite Ed).
+  set (saved := saved_attrs (reg_node (ft st)) d) in *.
+  set (px := match pxo with Some p => Some p | None => get_pixels st n end) in *.
+  destruct (match px with Some p => set_pixels st p 0 | None => Ok tt st end) as [u st0|e st0] eqn:Ep; [|discriminate].
+  cbn [bind] in H. destruct (opt_set_pixels_ok _ _ _ _ _ Ep) as (Eg & Eb & Ef & _).
+  destruct (del_node_tail_char (del_node_graph st0 n) n saved px) as (s' & H' & (Cg & Cs & Cf)). rewrite H in H'. injection H' as -> <-. clear H.
+  cbn [inv_basic] in H2.
+  assert (Hn1 : ~ is_node st1 n).
+  { unfold is_node, node_ids. rewrite Cg. unfold del_node_graph. cbn [g nodes upd_g]. intros Hi. apply in_keys_del in Hi. now destruct Hi. }
+  assert (Hrp1 : rp_disjoint st1) by (unfold rp_disjoint; rewrite Cf; cbn [ft del_node_graph upd_g]; now rewrite Ef).
+  destruct (wd_time st WD n Hn) as [t Et].
+  assert (Ett : time_of st n = t) by (unfold time_of; now rewrite (zattr_VZ st n KTime t Et)).
+  assert (Hpx1 : add_node_px_ok st1 n saved px).
+  { intros sg1 Hs1. rewrite Cs in Hs1. cbn [seg del_node_graph upd_g] in Hs1. exists t.
+    split.
+    { intros v Hin. apply saved_attrs_in in Hin. destruct Hin as (_ & E & _). unfold attr in Et. rewrite Hd in Et. congruence. }
+    destruct px as [[tp idx]|] eqn:Epx.
+    2:{ exfalso. injection Ep as _ <-. unfold px in Epx. destruct pxo; [discriminate|]. unfold get_pixels in Epx. rewrite Hs1 in Epx. discriminate. }
+    destruct (set_pixels_char _ _ _ _ _ Ep) as (sg & Hs & Hf & ->). cbn [seg upd_seg] in Hs1. injection Hs1 as <-. cbn [fst snd] in Hf.
+    assert (Hexact : tp = t /\ forall j, (j < length (frame_of sg tp))%nat -> (In (Z.of_nat j) idx <-> label_at sg tp j = n)).
+    { unfold px in Epx. destruct pxo as [p0|].
+      - injection Epx as ->. destruct (Hex sg Hs) as [A B]. cbn [fst snd] in A, B. split; [congruence|exact B].
+      - unfold get_pixels in Epx. rewrite Hs in Epx. injection Epx as <- <-. split; [exact Ett|]. intros j Hj. rewrite mask_of_In. tauto. }
+    destruct Hexact as [-> Hiff].
+    assert (Hlab : forall j, (j < length (frame_of sg t))%nat -> label_at (paint_sg sg (t, idx) 0) t j = if memz (Z.of_nat j) idx then 0 else label_at sg t j)
+      by (intros j Hj; now apply label_at_paint_same).
+    split; [now rewrite paint_frame_ok|]. split; [|split; [reflexivity|]].
+    - intros j Hj. rewrite frame_len_paint in Hj by exact Hf. rewrite (Hlab j Hj). destruct (memz (Z.of_nat j) idx) eqn:Em.
+      + intros E0. apply Hn0; [congruence|now symmetry].
+      + intros E. apply Hiff in E; [|exact Hj]. apply memz_In in E. congruence.
+    - cbn [snd]. intros j Hj Hin. rewrite frame_len_paint in Hj by exact Hf. rewrite (Hlab j Hj). apply memz_In in Hin. now rewrite Hin. }
+  destruct (add_node_inverse st1 n saved px b' st2 WD1 Hn1 Hrp1 Hpx1 H2) as (b'' & st3 & H3 & C3).
+  assert (Eb' : b' = BAddNode n saved px).
+  { rewrite do_add_node_eq in H2. destruct (negb (haskey KTime saved)); [discriminate|]. destruct (negb (haskey KTrack saved)); [discriminate|].
+    destruct (match px with None => _ | Some _ => false end); [discriminate|].
+    destruct (match px with Some p => set_pixels st1 p n | None => Ok tt st1 end); [|discriminate]. cbn [bind] in H2.
+    now destruct (add_node_tail_char _ _ _ _ _ _ H2). }
+  subst b'. exists b'', st3. split; [exact H3|]. apply obs_eq_sym, core_eq_obs, C3.
 Qed.
